@@ -52,6 +52,7 @@ class Session:
         self.nfit = 0
         self.pending_exc = None         # the interruption that is propagating out of the enclosing with-blocks
         self.dflt_every = []            # `every` of the checkpoint defaults in force (contexts entered; primed by resume_from_file)
+        self.enter_log = []             # the cadence of every context entered, in order (recorded in the replay)
         self.last_every = 1
 
     def path(self, p):
@@ -102,11 +103,12 @@ class Session:
                         self.target.fault_at = None
             elif k == "enter":
                 # cadences a user writes: every iteration, only the final checkpoint (0), every second iteration
-                every = (1, 0, 2, 1)[(self.seed + len(self.stack) + len(self.dflt_every)) % 4]
+                every = op[3] if len(op) > 3 else (1, 0, 2, 1)[(self.seed + len(self.stack) + len(self.dflt_every)) % 4]
                 cm = a.auto_checkpoint(self.path(op[1]), every=every, save_config=op[2])
                 cm.__enter__()
                 self.stack.append((cm, a))
                 self.dflt_every.append(every)
+                self.enter_log.append(every)
             elif k == "exit":
                 if self.stack:
                     cm, inst = self.stack.pop()
@@ -235,18 +237,24 @@ def check_sequences(chk, seqs):
                     chk.count(f"cadence_in_force:{e_}")
                 eff.append(op)
                 obs.append([sess.observe(p) for p in (1, 2)])
-            runs.append((eff, obs))
+            runs.append((eff, obs, list(sess.enter_log)))
         finally:
             shutil.rmtree(tmp, ignore_errors=True)
-    reps = drv.batch(["f64 session " + " ".join([str(len(eff))] + [op_wire(o) for o in eff]) for eff, _ in runs])
-    for ops, (eff, obs), rep in zip(seqs, runs, reps):
+    reps = drv.batch(["f64 session " + " ".join([str(len(eff))] + [op_wire(o) for o in eff]) for eff, _, _ in runs])
+    for ops, (eff, obs, entered), rep in zip(seqs, runs, reps):
         if not rep.ok:
             raise core.HarnessError(rep.err)
         model = parse_model(rep, len(eff))
         text = [op_wire(o) for o in eff]
         case = {"ops": text}
-        if eff != ops:
-            case["planned_ops"] = [op_wire(o) for o in ops]
+        # what is replayed: the operations as PLANNED (where the interruption is planted) with the cadence each context was opened with
+        planned, ent = [], list(entered)
+        for o in ops:
+            w = op_wire(o)
+            if o[0] == "enter" and ent:
+                w += f" every={ent.pop(0)}"
+            planned.append(w)
+        case["planned_ops"] = planned
         chk.count(f"length:{len(ops)}")
         nontriv, stopped = False, False
         for j in range(len(eff)):
@@ -389,13 +397,21 @@ def run(chk: core.Check):
         # a resumed object samples WITHOUT opening a new context, is interrupted again, and is resumed again
         [("fit", None, False), ("enter", 1, True), ("sample", "smc", None, False, 2), ("exit",), ("resume", 1), ("sample", "smc", None, False, 1),
          ("resume", 1), ("sample", "smc", None, True, 0)],
+        # a context that asks for the FINAL checkpoint only (every=0) on a file that holds the checkpoint of an earlier run with the
+        # previous proposal: the completed run must replace it; and the same with every second iteration
+        [("fit", 1, False), ("sample", "smc", 1, True, 0), ("fit", None, False), ("enter", 1, True, 0), ("sample", "smc", None, True, 0), ("exit",), ("resume", 1)],
+        [("fit", 1, False), ("sample", "smc", 1, True, 0), ("fit", None, False), ("enter", 1, True, 2), ("sample", "smc", None, True, 0), ("exit",), ("resume", 1)],
+        [("fit", 1, False), ("sample", "smc", 1, True, 0), ("fit", None, False), ("enter", 1, True, 0), ("sample", "smc", None, False, 2), ("exit",)],
     ]
+    corpus = list(seqs)
+    seqs = []
     for n in range(1, L):
         for tail in itertools.product(ALPHA_SMALL, repeat=n):
             seqs.append([("fit", None, False)] + list(tail))
     if quick:
-        idx = r.permutation(len(seqs))[:220]
+        idx = r.permutation(len(seqs))[:200]
         seqs = [seqs[i] for i in sorted(idx)]
+    seqs = corpus + seqs        # the documented usage patterns always run
     for _ in range(60 if quick else 1500):
         n = int(r.integers(3, (6 if quick else 8) + 1))
         seqs.append([("fit", [None, 1][int(r.integers(2))], False)] + [rand_op(r) for _ in range(n - 1)])
@@ -422,7 +438,8 @@ def parse_op(t):
     if t[0] == "sample":
         return ("sample", t[1], o(t[2]), t[3] == "1", int(t[4]))
     if t[0] == "enter":
-        return ("enter", int(t[1]), t[2] == "1")
+        ev = [int(x.split("=")[1]) for x in t[3:] if x.startswith("every=")]
+        return ("enter", int(t[1]), t[2] == "1") + ((ev[0],) if ev else ())
     if t[0] == "exit":
         return ("exit",)
     return ("resume", int(t[1]))
@@ -432,7 +449,7 @@ def replay(chk: core.Check, path: str) -> int:
     doc = json.loads(open(path).read())
     p = doc["payload"]
     cases = [p["case"]] if "case" in p else [d["case"] for d in p.get("correspondence", [])]
-    check_sequences(chk, [[parse_op(t) for t in c["ops"]] for c in cases])
+    check_sequences(chk, [[parse_op(t) for t in c.get("planned_ops", c["ops"])] for c in cases])
     for f in chk.failures[:10]:
         print("FAIL", f["clause"], f["detail"])
     for d in chk.disagreements[:5]:
